@@ -107,5 +107,5 @@ Certificates == \A i \in Honest : xs[i].blockDone =>
 NobodyDecides == \A i \in Honest : ~xs[i].blockDone
 TwoDecide == Cardinality({i \in Honest : xs[i].blockDone}) < 2
 
-EmitBehaviour == (Emit /\ Len(hist.evs) = EmitLen) => PrintT(<<"BEHAVIOUR", ToJson(hist.evs)>>)
+EmitBehaviour == (Emit /\ Len(hist.evs) \in {EmitLen, EmitLen \div 2, 6}) => PrintT(<<"BEHAVIOUR", ToJson(hist.evs)>>)
 =============================================================================
